@@ -1,5 +1,6 @@
 --------------------------- MODULE HDFStoreTrace ---------------------------
 (* C11, code -> spec: histories of store / to_hdf / from_hdf / update_from_hdf *)
+(* (from the database's own file and from files written by other databases)   *)
 (* performed on a real gemseo Database (larger alphabets than the exhaustive   *)
 (* graph: up to 5 points, 6 output names) are recorded with, after every       *)
 (* export, the raw layout of the file read with h5py and the database that     *)
@@ -48,11 +49,15 @@ TExport    == IsEv("Export") /\ Export(Ev.append)
                  /\ SameDb(Ev.memory, db')
 TReload    == IsEv("Reload") /\ Reload /\ SameDb(Ev.memory, db')
 TUpdate    == IsEv("Update") /\ Update /\ SameDb(Ev.memory, db')
+\* update_from_hdf(another file): the event carries the database that file was written from
+ForeignOfRec(rec) == [i \in 1..Len(rec) |-> <<rec[i].key, {o.name : o \in ToSet(rec[i].outs)}>>]
+TUpdateFrom == IsEv("UpdateFrom") /\ (\A i \in 1..Len(Ev.other) : StoredAsSpecified(Ev.other[i].key, Ev.other[i].outs))
+                 /\ UpdateFrom(ForeignOfRec(Ev.other)) /\ SameDb(Ev.memory, db')
 \* the final full export into a second file: its reloaded content is the database (AppendEqualsFull)
 TFull      == IsEv("FullCopy") /\ SameDb(Ev.loaded, db) /\ SameDb(Ev.loaded, DecodeFile(FullLayout(db)))
                  /\ UNCHANGED vars
 
-TNext == TStore \/ TStoreMore \/ TExport \/ TReload \/ TUpdate \/ TFull
+TNext == TStore \/ TStoreMore \/ TExport \/ TReload \/ TUpdate \/ TUpdateFrom \/ TFull
 TSpec == TInit /\ [][TNext]_tvars
 
 \* acceptance: furthest event reached per trace (registers; -workers 1)
